@@ -282,7 +282,12 @@ class Instrumenter(object):
           st = copy.copy(st)
           st.value = rd.visit(st.value)
         new.body.append(st)
-      new.bases = [rd.visit(b_) for b_ in s.bases]
+      # decorators, bases and keywords are evaluated in the ENCLOSING scope: names the class
+      # body happens to bind as well are still reads of the enclosing function's variables there
+      rd_head = _Reads(self.ids, fi.locals | fi.params | fi.free | fi.nonlocals)
+      new.bases = [rd_head.visit(b_) for b_ in s.bases]
+      new.keywords = [ast.keyword(arg=k_.arg, value=rd_head.visit(k_.value)) for k_ in s.keywords]
+      new.decorator_list = [rd_head.visit(d_) for d_ in s.decorator_list]
       return [I.P(s), new, I.W(s, [s.name])]
     if isinstance(s, (ast.Assign, ast.AnnAssign)):
       names = _store_names(s)
